@@ -18,7 +18,7 @@ NS = {"a": "http://schemas.openxmlformats.org/drawingml/2006/main",
       "p": "http://schemas.openxmlformats.org/presentationml/2006/main",
       "c": "http://schemas.openxmlformats.org/drawingml/2006/chart",
       "r": "http://schemas.openxmlformats.org/officeDocument/2006/relationships"}
-REPO = os.environ.get("VERIF_REPO", "/repo")
+REPO = (os.environ.get("VERIF_REPO") or "/repo")
 PNG = os.path.join(REPO, "tests/test_files/python-powered.png")
 
 # ------------------------------------------------------------------------------------------------ fixture decks
